@@ -23,6 +23,8 @@ import (
 const (
 	c31API = "s3.test"
 	c31Web = "web.test"
+	// c31Site is a bucket served as a custom-domain website (Host == bucket name).
+	c31Site = "site.example.test"
 )
 
 // ---- covering table (S3 action model -> pithos operation names) ------------
@@ -118,19 +120,20 @@ type c31State struct {
 	UploadAlpha  string
 	UploadBeta   string
 	Markers      map[string][2]string // marker -> (bucket,key)
+	Versions     map[string]map[string][]string // bucket -> key -> version ids (oldest first; versioned buckets only)
 }
 
 func marker(bucket, key string, n int) string { return fmt.Sprintf("OBJ<%s|%s|%d>", bucket, key, n) }
 
 func c31Seed(g *rig) (*c31State, error) {
 	ctx := contextBG()
-	st := &c31State{Markers: map[string][2]string{}}
+	st := &c31State{Markers: map[string][2]string{}, Versions: map[string]map[string][]string{"beta": {}}}
 	put := func(b, k string, n int, opts *storage.PutObjectOptions) (*storage.PutObjectResult, error) {
 		m := marker(b, k, n)
 		st.Markers[m] = [2]string{b, k}
 		return g.real.PutObject(ctx, bn(b), ok(k), vkit.Ptr("text/plain"), strings.NewReader(m+"-0123456789abcdef-payload"), nil, opts)
 	}
-	for _, b := range []string{"alpha", "beta", "gamma"} {
+	for _, b := range []string{"alpha", "beta", "gamma", c31Site} {
 		if err := g.real.CreateBucket(ctx, bn(b)); err != nil {
 			return nil, err
 		}
@@ -139,7 +142,7 @@ func c31Seed(g *rig) (*c31State, error) {
 	if err := g.real.PutBucketVersioningConfiguration(ctx, bn("beta"), &storage.BucketVersioningConfiguration{Status: &en}); err != nil {
 		return nil, err
 	}
-	for _, k := range []string{"k", "k2", "k/sub/x", "index.html", "docs/index.html", "err.html", "zeta"} {
+	for _, k := range []string{"k", "k2", "k/sub/x", "index.html", "docs/index.html", "private/index.html", "private/data", "err.html", "zeta"} {
 		if _, err := put("alpha", k, 0, nil); err != nil {
 			return nil, err
 		}
@@ -154,18 +157,36 @@ func c31Seed(g *rig) (*c31State, error) {
 		}
 		st.BetaVersions = append(st.BetaVersions, sp(res.VersionID))
 	}
-	if _, err := put("beta", "k2", 0, nil); err != nil {
+	st.Versions["beta"]["k"] = append([]string(nil), st.BetaVersions...)
+	// a second multi-version object whose key the per-entry delete hook of lua-hooks denies
+	for n := 0; n < 3; n++ {
+		res, err := put("beta", "k2", n, nil)
+		if err != nil {
+			return nil, err
+		}
+		st.Versions["beta"]["k2"] = append(st.Versions["beta"]["k2"], sp(res.VersionID))
+	}
+	dmRes, err := put("beta", "dm", 0, nil)
+	if err != nil {
 		return nil, err
 	}
-	if _, err := put("beta", "dm", 0, nil); err != nil {
-		return nil, err
-	}
+	st.Versions["beta"]["dm"] = append(st.Versions["beta"]["dm"], sp(dmRes.VersionID))
 	dr, err := g.real.DeleteObject(ctx, bn("beta"), ok("dm"), nil)
 	if err != nil {
 		return nil, err
 	}
 	if dr != nil {
 		st.DMVersion = sp(dr.VersionID)
+		st.Versions["beta"]["dm"] = append(st.Versions["beta"]["dm"], st.DMVersion)
+	}
+	// a custom-domain website bucket (bucket name == host name) with its own index suffix and no error document
+	for _, k := range []string{"home.htm", "blog/home.htm", "blog/post"} {
+		if _, err := put(c31Site, k, 0, nil); err != nil {
+			return nil, err
+		}
+	}
+	if err := g.real.PutBucketWebsiteConfiguration(ctx, bn(c31Site), &storage.WebsiteConfiguration{IndexDocumentSuffix: "home.htm"}); err != nil {
+		return nil, err
 	}
 	for _, b := range []string{"alpha", "beta"} {
 		for _, k := range []string{"k", "up/second"} {
@@ -340,6 +361,23 @@ function authorizeRequest(request)
 end
 `
 
+// luaKeys is a key-sensitive program: nothing may be written, and objects whose
+// key ends in .html/.htm or equals k2 may not be read by anyone. Directory-style
+// website paths ("/", "/docs/") are *not* denied keys themselves - the index
+// documents they resolve to are.
+const luaKeys = `
+function authorizeRequest(request)
+  if not request:isReadOnly() then return false end
+  if request.key ~= nil and (request:keyHasSuffix(".html") or request:keyHasSuffix(".htm") or request.key == "k2") then return false end
+  return true
+end
+`
+
+// luaKeysDenied mirrors the key predicate of luaKeys in Go.
+func luaKeysDenied(bucket, key string) bool {
+	return strings.HasSuffix(key, ".html") || strings.HasSuffix(key, ".htm") || key == "k2"
+}
+
 func keyedPolicy(seed uint64) policy {
 	return func(kind, op string, bucket, key *string, item string) bool {
 		h := fnv.New64a()
@@ -358,8 +396,12 @@ type c31Mode struct {
 	Pol      policy // harness policy (nil when Lua)
 	Lua      string // Lua program (real LuaAuthorizer) when non-empty
 	Expect   policy // expected per-item decisions (for hook exactness); nil = all allowed
-	Frozen   bool   // state must never change in this mode
+	Frozen   bool   // state must never change in this mode (snapshot compared after every request)
 	Mutating bool   // state may change -> reseed periodically
+	Static   bool   // the program denies every write: content markers keep identifying their object (no snapshot taken)
+	// DenyKey: the program denies every read of this object for every caller, so
+	// its content must never appear in a response (nil = no such objects)
+	DenyKey func(bucket, key string) bool
 }
 
 func c31Modes(seed uint64) []c31Mode {
@@ -371,13 +413,14 @@ func c31Modes(seed uint64) []c31Mode {
 		{Name: "lua-readonly", Lua: luaReadOnly, Frozen: true},
 		{Name: "lua-hooks", Lua: luaHooks, Expect: luaHooksPolicy, Mutating: true},
 		{Name: "lua-tags", Lua: luaTags, Mutating: true},
+		{Name: "lua-keys", Lua: luaKeys, Static: true, DenyKey: luaKeysDenied},
 	}
 }
 
 // ---- request generation ----------------------------------------------------
 
 var c31Methods = []string{"GET", "HEAD", "PUT", "POST", "DELETE", "OPTIONS", "PATCH"}
-var c31Shapes = []string{"/", "/b", "/b/", "/b/k", "/b/k/sub/x", "/b/k/sub//x", "vhost/", "vhost/k", "website/", "website/k", "custom/k"}
+var c31Shapes = []string{"/", "/b", "/b/", "/b/k", "/b/k/sub/x", "/b/k/sub//x", "vhost/", "vhost/k", "website/", "website/k", "custom/k", "custom/"}
 var c31Queries = []string{"uploads", "uploadId", "partNumber", "tagging", "versionId", "versions", "versioning", "cors", "lifecycle", "notification", "website", "delete", "append", "list-type", "acl", "policy"}
 
 // c31Base is one (method, shape, query-subset) combination.
@@ -416,7 +459,8 @@ type c31Req struct {
 	Variant []string `json:"variant"`
 	Spec    reqSpec  `json:"request"`
 	Website bool     `json:"website_host"`
-	DelKeys []string `json:"delete_keys,omitempty"`
+	DelKeys []string `json:"delete_keys,omitempty"`     // multi-delete entries in request order (keys may repeat)
+	DelVers []string `json:"delete_versions,omitempty"` // parallel to DelKeys: VersionId of the entry ("" = none)
 	Bucket  string   `json:"bucket"`
 }
 
@@ -452,15 +496,28 @@ func c31Build(rg *vkit.Rand, b c31Base, st *c31State) c31Req {
 		spec.Host, spec.Path = bucket+"."+c31API, "/"+key
 	case "website/":
 		bucket = "alpha"
-		spec.Host, spec.Path = bucket+"."+c31Web, vkit.Pick(rg, []string{"/", "/docs/", "/docs"})
+		// directory-style paths: the document served is <path><index suffix>, not the path itself
+		spec.Host, spec.Path = bucket+"."+c31Web, vkit.Pick(rg, []string{"/", "/docs/", "/docs", "/private/", "/private", "/k/", "/nodir/", "/docs//"})
 		rq.Website = true
 	case "website/k":
 		bucket = vkit.Pick(rg, []string{"alpha", "alpha", "beta"})
-		spec.Host, spec.Path = bucket+"."+c31Web, "/"+vkit.Pick(rg, []string{"k", "k2", "missing", "tagged", "index.html"})
+		spec.Host, spec.Path = bucket+"."+c31Web, "/"+vkit.Pick(rg, []string{"k", "k2", "missing", "tagged", "index.html", "docs/index.html", "private/data", "err.html"})
 		rq.Website = true
 	case "custom/k":
 		bucket = "alpha"
-		spec.Host, spec.Path = "alpha", "/"+vkit.Pick(rg, []string{"k", "", "missing"})
+		spec.Host, spec.Path = "alpha", "/"+vkit.Pick(rg, []string{"k", "", "missing", "private/data", "docs/index.html"})
+		if rg.Chance(35) {
+			bucket = c31Site
+			spec.Host, spec.Path = c31Site, "/"+vkit.Pick(rg, []string{"blog/post", "home.htm", "blog", "missing"})
+		}
+		rq.Website = true
+	case "custom/":
+		bucket = "alpha"
+		spec.Host, spec.Path = "alpha", vkit.Pick(rg, []string{"/", "/docs/", "/private/", "/nodir/"})
+		if rg.Chance(50) {
+			bucket = c31Site
+			spec.Host, spec.Path = c31Site, vkit.Pick(rg, []string{"/", "/blog/", "/nodir/"})
+		}
 		rq.Website = true
 	}
 	rq.Bucket = bucket
@@ -505,14 +562,30 @@ func c31Build(rg *vkit.Rand, b c31Base, st *c31State) c31Req {
 		body := "request-body-bytes"
 		switch {
 		case has["delete"]:
-			rq.DelKeys = nil
-			n := rg.Range(1, 4)
+			// 1..6 entries; keys repeat (a version purge names one key once per version),
+			// entries of versioned keys carry a VersionId
+			rq.DelKeys, rq.DelVers = nil, nil
+			n := rg.Range(1, 6)
 			pool := []string{"k", "k2", "k2x", "tagged", "zeta", "missing", "k/sub/x", "dm"}
-			vkit.Shuffle(rg, pool)
 			body = "<Delete>"
-			for _, k := range pool[:n] {
+			for i := 0; i < n; i++ {
+				k := vkit.Pick(rg, pool)
+				if i > 0 && rg.Chance(45) {
+					k = rq.DelKeys[rg.Intn(i)]
+				}
+				v := ""
+				if vs := st.Versions[bucket][k]; len(vs) > 0 && rg.Chance(65) {
+					v = vkit.Pick(rg, vs)
+				} else if rg.Chance(10) {
+					v = vkit.Pick(rg, []string{"null", "bogus"})
+				}
 				rq.DelKeys = append(rq.DelKeys, k)
-				body += "<Object><Key>" + xmlEscape(k) + "</Key></Object>"
+				rq.DelVers = append(rq.DelVers, v)
+				body += "<Object><Key>" + xmlEscape(k) + "</Key>"
+				if v != "" {
+					body += "<VersionId>" + xmlEscape(v) + "</VersionId>"
+				}
+				body += "</Object>"
 			}
 			if rg.Chance(20) {
 				body += "<Quiet>true</Quiet>"
@@ -537,7 +610,7 @@ func c31Build(rg *vkit.Rand, b c31Base, st *c31State) c31Req {
 			body = vkit.Pick(rg, []string{"<garbage", "", "not xml at all", "<Delete><Object><Key></Key></Object></Delete>"})
 			rq.Variant = append(rq.Variant, "body-garbage")
 			if has["delete"] {
-				rq.DelKeys = nil
+				rq.DelKeys, rq.DelVers = nil, nil
 			}
 		}
 		spec.Body = body
@@ -627,6 +700,38 @@ func c31Canon(st *c31State, nonce int) []c31Req {
 	}
 	api := c31API
 	ua, ub := st.UploadAlpha, st.UploadBeta
+	v2, k2v0, k2v1, k2v2 := "null", "null", "null", "null"
+	if len(st.BetaVersions) >= 3 {
+		v2 = st.BetaVersions[2]
+	}
+	if vs := st.Versions["beta"]["k2"]; len(vs) >= 3 {
+		k2v0, k2v1, k2v2 = vs[0], vs[1], vs[2]
+	}
+	// del builds a multi-delete request from (key, versionId) entries
+	del := func(bucket string, quiet bool, ents ...[2]string) c31Req {
+		body := "<Delete>"
+		if quiet {
+			body += "<Quiet>true</Quiet>"
+		}
+		var keys, vers []string
+		for _, e := range ents {
+			keys, vers = append(keys, e[0]), append(vers, e[1])
+			body += "<Object><Key>" + xmlEscape(e[0]) + "</Key>"
+			if e[1] != "" {
+				body += "<VersionId>" + xmlEscape(e[1]) + "</VersionId>"
+			}
+			body += "</Object>"
+		}
+		rq := mk("POST", "/b", api, "/"+bucket, "delete", nil, body+"</Delete>", keys)
+		rq.DelVers = vers
+		rq.Bucket = bucket
+		return rq
+	}
+	web := func(method, shape, host, path string) c31Req {
+		rq := mk(method, shape, host, path, "", nil, "", nil)
+		rq.Website = true
+		return rq
+	}
 	return []c31Req{
 		mk("GET", "/", api, "/", "", nil, "", nil),
 		mk("HEAD", "/b", api, "/alpha", "", nil, "", nil),
@@ -658,6 +763,25 @@ func c31Canon(st *c31State, nonce int) []c31Req {
 		mk("GET", "website/k", "alpha."+c31Web, "/docs", "", nil, "", nil),
 		mk("HEAD", "website/k", "alpha."+c31Web, "/k", "", nil, "", nil),
 		mk("HEAD", "website/k", "alpha."+c31Web, "/missing", "", nil, "", nil),
+		// directory-style website paths: the index document is what is read
+		web("GET", "website/", "alpha."+c31Web, "/docs/"),
+		web("HEAD", "website/", "alpha."+c31Web, "/docs/"),
+		web("GET", "website/", "alpha."+c31Web, "/private/"),
+		web("HEAD", "website/", "alpha."+c31Web, "/"),
+		web("GET", "website/", "alpha."+c31Web, "/nodir/"),
+		web("GET", "website/k", "alpha."+c31Web, "/private/data"),
+		web("GET", "website/k", "alpha."+c31Web, "/docs/index.html"),
+		// custom domains (Host is the bucket name)
+		web("GET", "custom/", "alpha", "/"),
+		web("GET", "custom/", "alpha", "/docs/"),
+		web("GET", "custom/", c31Site, "/"),
+		web("HEAD", "custom/", c31Site, "/"),
+		web("GET", "custom/", c31Site, "/blog/"),
+		web("HEAD", "custom/", c31Site, "/blog/"),
+		web("GET", "custom/k", c31Site, "/blog"),
+		web("GET", "custom/k", c31Site, "/blog/post"),
+		web("GET", "custom/k", c31Site, "/home.htm"),
+		web("GET", "custom/k", c31Site, "/missing"),
 		mk("PUT", "/b/k", api, "/alpha/newkey", "", map[string]string{"x-amz-tagging": "a=b", "x-amz-meta-x": "y"}, "fresh-object-"+n, nil),
 		mk("PUT", "vhost/k", "alpha."+api, "/vkey", "", nil, "fresh-object-2", nil),
 		mk("PUT", "/b/k", api, "/alpha/k", "append", nil, "-appended-"+n, nil),
@@ -675,9 +799,14 @@ func c31Canon(st *c31State, nonce int) []c31Req {
 		mk("PUT", "/b/k", api, "/alpha/k", "partNumber=5&uploadId="+ua, map[string]string{"x-amz-copy-source": "/beta/k?versionId=" + v0, "x-amz-copy-source-range": "bytes=0-3"}, "", nil),
 		mk("POST", "/b/k", api, "/beta/k", "uploadId="+ub, nil, "<CompleteMultipartUpload><Part><PartNumber>1</PartNumber></Part><Part><PartNumber>2</PartNumber></Part></CompleteMultipartUpload>", nil),
 		mk("DELETE", "/b/k", api, "/alpha/k", "uploadId="+ua, nil, "", nil),
-		mk("POST", "/b", api, "/alpha", "delete", nil, "<Delete><Object><Key>zeta</Key></Object><Object><Key>k2x</Key></Object><Object><Key>tagged</Key></Object><Object><Key>k/sub/x</Key></Object></Delete>", []string{"zeta", "k2x", "tagged", "k/sub/x"}),
-		mk("POST", "/b", api, "/alpha", "delete", nil, "<Delete><Quiet>true</Quiet><Object><Key>k2</Key></Object><Object><Key>err.html</Key></Object><Object><Key>tagged</Key></Object></Delete>", []string{"k2", "err.html", "tagged"}),
-		mk("POST", "/b", api, "/beta", "delete", nil, "<Delete><Object><Key>k2</Key></Object><Object><Key>k</Key><VersionId>"+v0+"</VersionId></Object></Delete>", []string{"k2", "k"}),
+		del("alpha", false, [2]string{"zeta"}, [2]string{"k2x"}, [2]string{"tagged"}, [2]string{"k/sub/x"}),
+		del("alpha", true, [2]string{"k2"}, [2]string{"err.html"}, [2]string{"tagged"}),
+		del("beta", false, [2]string{"k2"}, [2]string{"k", v0}),
+		// batches that name one key several times (version purge; plain repeats), mixed with other keys
+		del("beta", false, [2]string{"k2", k2v0}, [2]string{"k2", k2v1}, [2]string{"k", v1}, [2]string{"k2"}, [2]string{"dm", st.DMVersion}),
+		del("beta", false, [2]string{"k", v2}, [2]string{"k2", k2v2}, [2]string{"k"}, [2]string{"k2", k2v2}, [2]string{"k"}),
+		del("alpha", false, [2]string{"tagged"}, [2]string{"zeta"}, [2]string{"tagged"}, [2]string{"k2"}, [2]string{"zeta"}, [2]string{"k2"}),
+		del("alpha", false, [2]string{"k2x"}, [2]string{"k2x"}),
 		mk("DELETE", "/b/k", api, "/alpha/index.html", "", nil, "", nil),
 		mk("DELETE", "/b/k", api, "/beta/k", "versionId="+v1, nil, "", nil),
 		mk("DELETE", "/b/k", api, "/beta/k", "", nil, "", nil),
@@ -709,9 +838,11 @@ type c31Witness struct {
 
 func ptrEq(p *string, s string) bool { return p != nil && *p == s }
 
-// authorizedBefore reports whether call c is preceded by a covering allow.
-func authorizedBefore(c sCall, auth []aEvent, website bool) (bool, string) {
-	ops := coverOps(c, website)
+// authorizedBefore reports whether call c is preceded by a covering allow
+// (operation, bucket, key, copy source). keyFree drops the key comparison; it is
+// only used to decide the two narrow website exemptions (see websiteReadExempt).
+func authorizedBefore(c sCall, auth []aEvent, keyFree bool) (bool, string) {
+	ops := coverOps(c, false)
 	why := "no allow at all before the call"
 	for _, e := range auth {
 		if e.Kind != "request" || !e.Allowed || e.Seq > c.Seq {
@@ -725,7 +856,7 @@ func authorizedBefore(c sCall, auth []aEvent, website bool) (bool, string) {
 			why = fmt.Sprintf("allow was for bucket %q, call acts on %q", sp(e.Bucket), c.Bucket)
 			continue
 		}
-		if !bucketLevelCalls[c.Method] && !website && !ptrEq(e.Key, c.Key) {
+		if !bucketLevelCalls[c.Method] && !keyFree && !ptrEq(e.Key, c.Key) {
 			why = fmt.Sprintf("allow was for key %q, call acts on %q", sp(e.Key), c.Key)
 			continue
 		}
@@ -775,6 +906,7 @@ type c31Checker struct {
 	g       *rig
 	st      *c31State
 	changed string // new baseline after a reported state change
+	delPre  map[string]string // multi-delete: state of the hook-denied keys of the batch before the request
 }
 
 func (ck *c31Checker) fire(sig, what string, w c31Witness, detail string) {
@@ -830,16 +962,28 @@ func (ck *c31Checker) check(rq c31Req, resp *respInfo, calls []sCall, auth []aEv
 			r.Count("not-enforced(no object data, no state change):"+c.Method, 1)
 			continue
 		}
-		okk, why := authorizedBefore(c, auth, rq.Website)
+		okk, why := authorizedBefore(c, auth, false)
 		if !okk && rq.Website && rq.Spec.Method == "HEAD" && c.Method == "GetObject" {
 			// website HEAD: index/error documents are opened to learn their type and
 			// length, no bytes are sent (check (2) below guards the bytes); the
-			// request's own Head authorization covers that
+			// request's own Head authorization for that same key covers that
 			hc := c
 			hc.Method = "HeadObject"
-			if ok2, _ := authorizedBefore(hc, auth, true); ok2 {
+			if ok2, _ := authorizedBefore(hc, auth, false); ok2 {
 				r.Count("exempt:website-head-opens-document", 1)
 				okk = true
+			}
+		}
+		if !okk && rq.Website {
+			if ex := ck.websiteReadExempt(rq, resp, c, calls, auth); ex != "" {
+				r.Count("exempt:"+ex, 1)
+				okk = true
+			}
+		}
+		if rq.Website && okk && objectReadMethods[c.Method] {
+			r.Count("website_document_reads_checked", 1)
+			if c.Err == "" && strings.HasSuffix(rq.Spec.Path, "/") {
+				r.Count("website_index_document_reads_checked", 1)
 			}
 		}
 		if okk {
@@ -860,8 +1004,11 @@ func (ck *c31Checker) check(rq c31Req, resp *respInfo, calls []sCall, auth []aEv
 			if e.Kind == "request" && e.Allowed && (e.Op == authorization.OperationGetObject || e.Op == authorization.OperationGetObjectVersion) {
 				// where state may change (authorized copies move content between keys) only the
 				// existence of a Get allow is required here - check (1) ties the allow to the
-				// bucket/key actually read; in frozen modes the marker identifies the object
-				if !ck.mode.Frozen || (ptrEq(e.Bucket, bk[0]) && (rq.Website || ptrEq(e.Key, bk[1]))) {
+				// bucket/key actually read; where it cannot change the marker identifies the
+				// object, and the allow must name it (website hosts included; the only other
+				// content a website host may send is the configured error document with an error status)
+				exact := ck.mode.Frozen || ck.mode.Static
+				if !exact || (ptrEq(e.Bucket, bk[0]) && (ptrEq(e.Key, bk[1]) || (rq.Website && resp.Status >= 400 && ck.isErrorDocument(bk[0], bk[1])))) {
 					allowed = true
 				}
 			}
@@ -869,6 +1016,17 @@ func (ck *c31Checker) check(rq c31Req, resp *respInfo, calls []sCall, auth []aEv
 		if !allowed {
 			ck.fire("object-bytes-without-allow:"+pat, fmt.Sprintf("response to %s carries the content of %s/%s but no GetObject allow for it was given", pat, bk[0], bk[1]), w, m)
 		}
+		// (2b) a program that denies every read of an object never sees its content leave
+		if ck.mode.DenyKey != nil && ck.mode.DenyKey(bk[0], bk[1]) {
+			if rq.Website && resp.Status >= 400 && ck.isErrorDocument(bk[0], bk[1]) {
+				r.Count("exempt:website-error-document-content", 1)
+			} else {
+				ck.fire("denied-object-bytes-returned:"+pat, fmt.Sprintf("response to %s (status %d) carries the content of %s/%s, a key the authorizer program %s denies for every read", pat, resp.Status, bk[0], bk[1], ck.mode.Name), w, m)
+			}
+		}
+	}
+	if ck.mode.DenyKey != nil {
+		r.Count("denied_key_content_checks", 1)
 	}
 
 	// (3) frozen modes: deny-all and read-only programs never change state
@@ -929,22 +1087,26 @@ func (ck *c31Checker) checkHooks(rq c31Req, resp *respInfo, calls []sCall, auth 
 		if c.Method != "DeleteObjects" || rq.DelKeys == nil || base == nil {
 			continue
 		}
+		// entries are compared with their VersionId, in request order, repeats included
 		var want []string
-		for _, k := range rq.DelKeys {
+		reqEntries := delEntries(rq)
+		repeats := len(rq.DelKeys) - len(dedupe(rq.DelKeys))
+		for i, k := range rq.DelKeys {
 			if expect("deleteEntry", base.Op, base.Bucket, base.Key, k) {
-				want = append(want, k)
+				want = append(want, reqEntries[i])
 			}
 		}
-		var got []string
-		for _, e := range c.Entries {
-			got = append(got, strings.SplitN(e, "\x00", 2)[0])
-		}
+		got := append([]string(nil), c.Entries...)
 		r.Count("multi_delete_calls_checked", 1)
 		r.Count("multi_delete_entries_skipped", int64(len(rq.DelKeys)-len(want)))
-		if strings.Join(want, "\x00") != strings.Join(got, "\x00") {
-			ck.fire("delete-hook-mismatch", fmt.Sprintf("DeleteObjects was handed %q but the per-entry hook allows exactly %q of the requested %q", got, want, rq.DelKeys), w, "")
+		if repeats > 0 {
+			r.Count("multi_delete_batches_with_repeated_key", 1)
+		}
+		if strings.Join(want, "\x01") != strings.Join(got, "\x01") {
+			ck.fire("delete-hook-mismatch", fmt.Sprintf("DeleteObjects was handed %s but the per-entry hook allows exactly %s of the requested %s", showEntries(got), showEntries(want), showEntries(reqEntries)), w, "")
 		}
 	}
+	ck.checkDeniedDeleteEntries(rq, resp, auth, w, ck.delPre)
 	if rq.DelKeys != nil && base != nil && len(calls) > 0 {
 		// a request whose every entry is denied must not reach DeleteObjects at all (checked above when it does)
 	}
@@ -1126,9 +1288,12 @@ func c31RunMode(r *vkit.Run, rng *vkit.Rand, plan c31Plan, onlySeg, onlyIdx int)
 			if b.Method == "CANON" {
 				cn := c31Canon(st, seg)
 				rq = cn[b.canonIdx%len(cn)]
-				rq.Bucket = ""
 			} else {
 				rq = c31Build(rg, b, st)
+			}
+			ck.delPre = nil
+			if onlySeg < 0 || i-lo == onlyIdx {
+				ck.delPre = ck.deniedKeyStates(rq)
 			}
 			resp, calls, auth, err := g.do(rq.Spec)
 			if err != nil {
@@ -1235,9 +1400,9 @@ func runC31(tier, replay string) {
 		loadWitness(replay, &rw)
 	}
 	r := vkit.Begin("C31", "exploration", tier)
-	r.SetRule("request = every method {GET,HEAD,PUT,POST,DELETE,OPTIONS,PATCH} x path shape {/, /b, /b/, /b/k, /b/k/sub/x, /b/k/sub//x, virtual-hosted root and key, website endpoint root and key, custom domain} x every subset of <= 2 of 16 subresource queries (known and unknown) x PRNG header variant (copy-source incl. versionId / garbage / self, copy-source-range, tagging, tagging/metadata directive, storage class, conditionals, write offset, Origin/preflight, Range) x body (valid XML for the subresource / garbage); executed against a pre-seeded SQLite storage (3 buckets, versions, delete marker, tags, pending multipart uploads, website + CORS configuration) under six authorizer programs: allow-all, deny-all, PRNG-keyed allow/deny on (operation,bucket,key) with keyed per-item hooks, real Lua 'return request:isReadOnly()', real Lua per-item hooks, real Lua tag predicate. distinct = distinct (program, method+shape+query names, variant, status, number of storage calls)")
+	r.SetRule("request = every method {GET,HEAD,PUT,POST,DELETE,OPTIONS,PATCH} x path shape {/, /b, /b/, /b/k, /b/k/sub/x, /b/k/sub//x, virtual-hosted root and key, website endpoint root and key, custom domain key and root; website/custom-domain paths include directory-style ones (/, /docs/, /private/, /blog/, missing directories, /dir without slash) against two buckets with website configuration (different index suffixes, with / without error document)} x every subset of <= 2 of 16 subresource queries (known and unknown) x PRNG header variant (copy-source incl. versionId / garbage / self, copy-source-range, tagging, tagging/metadata directive, storage class, conditionals, write offset, Origin/preflight, Range) x body (valid XML for the subresource / garbage; multi-delete bodies of 1..6 entries in which keys repeat and entries of versioned keys carry a VersionId); executed against a pre-seeded SQLite storage (3 buckets, versions, delete marker, tags, pending multipart uploads, website + CORS configuration) under seven authorizer programs: allow-all, deny-all, PRNG-keyed allow/deny on (operation,bucket,key) with keyed per-item hooks, real Lua 'return request:isReadOnly()', real Lua per-item hooks, real Lua tag predicate, real Lua key predicate (read-only, denies *.html/*.htm/k2). distinct = distinct (program, method+shape+query names, variant, status, number of storage calls)")
 	r.Assume("covering table written from the S3 action model: version-specific calls need the *Version* operation; Head is covered by Head*/Get*; multipart writes by their own name or PutObject; config deletes by Delete*/Put*; copy needs the exact source bucket/key in the same allow")
-	r.Assume("enforced effects: every state-changing storage call, GetObject, HeadObject, GetObjectTagging. Exempt: CORS configuration lookup by the CORS middleware, lookups issued while the authorizer itself runs (lazy tag resolvers), website configuration lookup on website hosts; on website hosts bucket + operation coverage is enforced but not key equality (index / error documents). List/Head bucket/configuration reads are counted, not enforced (no object data, no state change)")
+	r.Assume("enforced effects: every state-changing storage call, GetObject, HeadObject, GetObjectTagging. Exempt: CORS configuration lookup by the CORS middleware, lookups issued while the authorizer itself runs (lazy tag resolvers), website configuration lookup on website hosts. On website hosts the key that is read must equal the allowed key (so a directory-style path must be authorized as its index document) with two counted exemptions: the bucket's configured error document read to render a status >= 400 for a request allowed on that bucket, and the HeadObject(K/<index suffix>) existence probe after the allowed key K was not found (answer is a 302 to K/ or the error page, nothing of the probed object is sent). List/Head bucket/configuration reads are counted, not enforced (no object data, no state change)")
 	rng := r.Rand()
 	plans := c31Plans(r, rng)
 	if replay != "" {
@@ -1257,7 +1422,11 @@ func runC31(tier, replay string) {
 		c31RunMode(r, rng, p, -1, -1)
 	}
 	// the run is only meaningful if the monitors saw allows, denies, effects, object bytes and hidden items
-	need := []string{"effects_covered", "decisions_allow", "decisions_deny", "responses_carrying_object_bytes", "snapshots_equal", "multi_delete_calls_checked", "listings_checked:listObject", "list_items_hidden:listObject", "exempt:lookup-made-by-authorizer:GetObjectTagging", "requests_with_mutating_call"}
+	need := []string{"effects_covered", "decisions_allow", "decisions_deny", "responses_carrying_object_bytes", "snapshots_equal", "multi_delete_calls_checked", "listings_checked:listObject", "list_items_hidden:listObject", "exempt:lookup-made-by-authorizer:GetObjectTagging", "requests_with_mutating_call",
+		// website hosts: index documents were read for directory-style paths and tied to the allowed key; a key-sensitive program ran
+		"website_document_reads_checked", "website_index_document_reads_checked", "denied_key_content_checks",
+		// multi-delete: batches repeating a key reached storage, and hook-denied keys that occur several times in one batch were compared before/after
+		"multi_delete_batches_with_repeated_key", "multi_delete_denied_keys_state_checked", "multi_delete_denied_keys_repeated_in_batch", "multi_delete_results_checked"}
 	for _, n := range need {
 		if r.Counter(n) == 0 {
 			r.Inconclusive("monitor never observed: " + n)
